@@ -85,7 +85,7 @@ func c20ConnDuplex(c *Ctx) {
 					defer wwg.Done()
 					rr := mon.NewRNG(uint64(run*1000 + ei*100 + wtr))
 					for s := 0; s < perWriter; s++ {
-						n := rr.Pick(0, 1, 50, 1000, 5000)
+						n := rr.Pick(0, 1, 50, 1000, 5000, 16377, 16378, 20000, 40000) // incl. messages that span several records: one Write is one unit
 						m := make([]byte, 7+n)
 						m[0] = byte(wtr)
 						binary.BigEndian.PutUint32(m[1:], uint32(s))
@@ -123,7 +123,7 @@ func c20ConnDuplex(c *Ctx) {
 						return
 					}
 					wtr, seq, n := int(hdr[0]), int(binary.BigEndian.Uint32(hdr[1:])), int(binary.BigEndian.Uint16(hdr[5:]))
-					if wtr >= W || n > 5000 {
+					if wtr >= W || n > 40000 {
 						e.bad = fmt.Sprintf("garbled message header %x", hdr)
 						return
 					}
